@@ -137,3 +137,50 @@ Definition step_ok (pre post : astate) (ev : list event) (snap : list member) : 
           (members pre !! i = None ∧ entry snap i = Some m)) ∧
   (∀ m, Join m ∈ ev → entry snap (mid m) = Some m) ∧
   (∀ m, Leave m ∈ ev → members pre !! mid m = Some m).
+
+(** * Observations (what the harness sees after each snapshot) *)
+Definition nsort : list nat → list nat := merge_sort Nat.le.
+Definition kuniv : list nat := [0; 1; 2].
+
+(* sorted Members() ids; sorted ids of the MemberJoinEvents / MemberLeaveEvents
+   published since the previous snapshot; HasKind(k) for k in the universe *)
+Record obs := { o_ids : list nat; o_joins : list nat; o_leaves : list nat; o_kinds : list bool }.
+
+Definition model_obs (r : astate * astate * list event) : obs :=
+  {| o_ids := nsort (map_to_list (members r.1.2)).*1;
+     o_joins := nsort (join_ids r.2);
+     o_leaves := nsort (leave_ids r.2);
+     o_kinds := (λ k, has_kind k r.1.2) <$> kuniv |}.
+Definition model_run (own : list nat) (hist : list (list member)) : list obs :=
+  model_obs <$> run (init (list_to_set own)) hist.
+
+(* what the specification predicts *)
+Definition spec_obs (v : gmap nat member) (snap : list member) : obs :=
+  {| o_ids := nsort (map_to_list (spec_view v snap)).*1;
+     o_joins := nsort (map_to_list (spec_joined v snap)).*1;
+     o_leaves := nsort (map_to_list (spec_left v snap)).*1;
+     o_kinds := (λ k, bool_decide (k ∈ kinds_of (spec_view v snap))) <$> kuniv |}.
+Fixpoint spec_run (v : gmap nat member) (hist : list (list member)) : list obs :=
+  match hist with
+  | [] => []
+  | snap :: hist' => spec_obs v snap :: spec_run (spec_view v snap) hist'
+  end.
+
+(* clause (c) is claimed only when every snapshot contains the node itself *)
+Definition has_selfb (self : nat) (own : gset nat) (snap : list member) : bool :=
+  bool_decide (Exists (λ m, mid m = self) snap ∧ Forall (λ m, mid m = self → own ⊆ kset m) snap).
+
+Definition obs_eqb (ck : bool) (a b : obs) : bool :=
+  bool_decide (o_ids a = o_ids b) && bool_decide (o_joins a = o_joins b) &&
+  bool_decide (o_leaves a = o_leaves b) && (negb ck || bool_decide (o_kinds a = o_kinds b)).
+
+Fixpoint all2 {A} (f : A → A → bool) (l1 l2 : list A) : bool :=
+  match l1, l2 with
+  | [], [] => true
+  | a :: l1', b :: l2' => f a b && all2 f l1' l2'
+  | _, _ => false
+  end.
+
+(* the C18 predicate on a sequence of observations *)
+Definition oracle_on (self : nat) (own : list nat) (hist : list (list member)) (os : list obs) : bool :=
+  all2 (obs_eqb (forallb (has_selfb self (list_to_set own)) hist)) (spec_run ∅ hist) os.
